@@ -72,9 +72,10 @@ fn main() {
             let shards = o.finish();
             println!("{{\"events\":{n},\"shards\":{shards}}}");
         }
-        ("record", "short") | ("record", "cut") | ("record", "dec3") | ("record", "poll") | ("record", "stream") | ("record", "fault") => {
+        ("record", "miri") | ("record", "short") | ("record", "cut") | ("record", "dec3") | ("record", "poll") | ("record", "stream") | ("record", "fault") => {
             let mut o = out::Out::new(&outp, shard);
             match area {
+                "miri" => frontends::record_miri(&mut o, seed, &get("part", "dec3")),
                 "short" => frontends::record_short(&mut o, &tier),
                 "cut" => frontends::record_cut(&mut o, &tier, seed),
                 "dec3" => frontends::record_dec3(&mut o, &tier, seed),
